@@ -1,8 +1,109 @@
-import EdpVerif.Drv.Common
+import EdpVerif.Drv.Etf
+import EdpVerif.Impl.Frag
+import EdpVerif.Spec.Frag
 namespace Edp.Drv
+open Edp Edp.Frag
 
-/-- driver requests of property C09 (stub: nothing handled yet) -/
+/-! Driver requests of property C09 (fragment reassembly).
+
+`c09run <timeout> <op>…` — the model of `FragmentAssembler::with_timeout(timeout)` driven by the op words
+  `s:<now>:<seq>:<fid>:<n|=hex>:=<hex>`  start_fragment     → `-` | `=<hex>`
+  `a:<now>:<seq>:<fid>:=<hex>`           add_fragment       → `-` | `=<hex>`
+  `c:<now>`                              cleanup_expired    → `c<removed>`
+  `p`                                    pending_count      → `p<count>`
+  `x`                                    clear              → `x`
+  results joined by `,`.
+`c09spec <once|full> <seq> <n|=hex> =<msghex> <lens csv|-> <arrival csv> <outs csv>` — the protocol's reference receiver
+  (`Spec.Frag.Ref`) run over the arrival (fragment ids of `Spec.Frag.split`, `j<id>` = junk continuation with that id),
+  compared with the implementation's outputs: `once` compares where something is returned and how long it is, `full` the bytes.
+-/
+
+private def c09Hex (s : String) : Except String Bytes :=
+  if s.startsWith "=" then getHex (if s.length == 1 then "" else (s.drop 1).toString) else .error "bad-hex-arg"
+
+private def c09Opt (s : String) : Except String (Option Bytes) :=
+  if s == "n" then .ok none else (c09Hex s).map some
+
+private def c09Nat (s : String) : Except String Nat :=
+  match s.toNat? with
+  | some n => .ok n
+  | none => .error ("bad-nat " ++ s)
+
+private def c09Out : Option Bytes → String
+  | none => "-"
+  | some b => "=" ++ hexOf b
+
+private def c09Step (a : Assembler) (w : String) : Except String (Assembler × String) :=
+  match w.splitOn ":" with
+  | ["s", now, q, fid, cache, data] => do
+    let now ← c09Nat now
+    let q ← c09Nat q
+    let fid ← c09Nat fid
+    let cache ← c09Opt cache
+    let data ← c09Hex data
+    let (a', o) := a.step (.start now q fid cache data)
+    pure (a', c09Out o)
+  | ["a", now, q, fid, data] => do
+    let now ← c09Nat now
+    let q ← c09Nat q
+    let fid ← c09Nat fid
+    let data ← c09Hex data
+    let (a', o) := a.step (.add now q fid data)
+    pure (a', c09Out o)
+  | ["c", now] => do
+    let now ← c09Nat now
+    let (a', k) := a.cleanupExpired now
+    pure (a', "c" ++ toString k)
+  | ["p"] => pure (a, "p" ++ toString a.pendingCount)
+  | ["x"] => pure (a.clear, "x")
+  | _ => .error ("bad-c09-op " ++ w)
+
+private def c09Run (a : Assembler) : List String → List String → Except String (List String)
+  | [], acc => .ok acc.reverse
+  | w :: ws, acc =>
+    match c09Step a w with
+    | .ok (a', r) => c09Run a' ws (r :: acc)
+    | .error e => .error e
+
+private def c09Lens (s : String) : Except String (List Nat) :=
+  if s == "-" then .ok [] else (s.splitOn ",").mapM c09Nat
+
+private def c09Arrival (frags : List Spec.Frag.Frag) (q : Nat) (w : String) : Except String Spec.Frag.Frag :=
+  if w.startsWith "j" then do
+    let k ← c09Nat (w.drop 1).toString
+    pure { seq := q, fid := k, hdr := false, cache := none, data := [0xee] }
+  else do
+    let k ← c09Nat w
+    match frags.find? (·.fid == k) with
+    | some f => pure f
+    | none => .error ("no-fragment " ++ w)
+
+private def c09ImplOut (w : String) : Except String (Option Bytes) :=
+  if w == "-" then .ok none else (c09Hex w).map some
+
+private def c09Cmp (full : Bool) : Nat → List (Option Bytes) → List (Option Bytes) → String
+  | _, [], [] => "ok"
+  | i, s :: ss, o :: os =>
+    let same := if full then s == o else (s.map List.length) == (o.map List.length)
+    if same then c09Cmp full (i + 1) ss os
+    else "FAIL at " ++ toString i ++ " spec=" ++ c09Out s ++ " impl=" ++ c09Out o
+  | i, _, _ => "FAIL length at " ++ toString i
+
 def handleC09 : List String → Option String
+  | "c09run" :: timeout :: ops => some <| run do
+    let t ← c09Nat timeout
+    let rs ← c09Run (Assembler.new t) ops []
+    pure (",".intercalate rs)
+  | ["c09spec", mode, q, cache, msg, lens, arrival, outs] => some <| run do
+    let q ← c09Nat q
+    let cache ← c09Opt cache
+    let msg ← c09Hex msg
+    let lens ← c09Lens lens
+    let frags := Spec.Frag.split q cache msg lens
+    let arr ← (arrival.splitOn ",").mapM (c09Arrival frags q)
+    let impl ← (outs.splitOn ",").mapM c09ImplOut
+    let spec := (Spec.Frag.Ref.run {} arr)
+    pure (c09Cmp (mode == "full") 0 spec impl)
   | _ => none
 
 end Edp.Drv
